@@ -45,6 +45,24 @@ func main() {
 		cmdFunc(os.Args[2:])
 	case "check":
 		os.Exit(cmdCheck(os.Args[2:]))
+	case "lemma":
+		P, err := loadAll("/repo", "/verif")
+		if err != nil {
+			fmt.Fprintln(os.Stderr, err)
+			os.Exit(2)
+		}
+		for _, name := range os.Args[2:] {
+			lm := P.specs.Lemmas[name]
+			if lm == nil {
+				fmt.Println("no such lemma", name)
+				continue
+			}
+			obls := P.lemmaObls(lm)
+			solveAll(P, obls, 20000, true, 4)
+			for _, o := range obls {
+				fmt.Printf("  %s: %s %dms [%s]\n", o.Name, o.Result.Verdict, o.Result.Ms, o.Result.Solver)
+			}
+		}
 	case "list":
 		P, err := loadAll("/repo", "/verif")
 		if err != nil {
